@@ -6,6 +6,26 @@ NOTES = ('All checks are ./check <id>; each rebuilds a source-only overlay from 
 NOT_CLAIMED = {}
 
 PROPS = {
+    'C11': {
+        'modules': ['contracts.C11_negotiation'],
+        'level': 'proof',
+        'level_text': '_MediaRange.match_score equals the documented 5-component specificity score over symbolic type/subtype strings and parameter values '
+                      '(49 parameter shapes), q validation, quality = q of a lexicographically maximal matching range, best_match never returns a q=0 / '
+                      'unmatched candidate and breaks ties by order; Handlers cache coherence as an epoch invariant for __setitem__/__delitem__/__init__/copy '
+                      'and for pop/popitem/clear/update/setdefault executed from the real stdlib UserDict/MutableMapping source; resolve() is a pure function '
+                      'of the current mapping.',
+        'level_note': 'quality unrolled for 1..3 ranges (4 in thorough), best_match for 0..3 candidates; header tokenisation (parse_header) only by a labelled '
+                      'bounded stand-in. q is modelled in thousandths plus nan/inf. UserDict.__ior__ / __copy__ bypass __setitem__ (outside the operation list).',
+    },
+    'C15': {
+        'modules': ['contracts.C15_headers'],
+        'level': 'proof',
+        'level_text': 'Case-insensitive map view of every plain-header operation with frame (whole-map equality over a symbolic String -> Option String map and '
+                      'symbolic names), Set-Cookie guard invariant, typed header properties through the real factory, emission lists for WSGI and ASGI, cookie '
+                      'attribute table against a recording jar, unset_cookie, append_link; encoders applied on every path.',
+        'level_note': 'str.lower is an uninterpreted idempotent function; uri encoders and secure_filename are opaque (C10); http.cookies is replaced by a recording '
+                      'jar in symbolic runs (real SimpleCookie in replays); set_headers unrolled for 0..3 pairs.',
+    },
     'C19': {
         'modules': ['contracts.C19_concurrency'],
         'level': 'other',
